@@ -681,6 +681,154 @@ func main() {
 		def("mux_run_closes_dropped", "bool", coqBool(closes), "mux_broker.go Run: the default branch of the park select closes the stream")
 	}
 
+	// ---- further shape facts of the two brokers (parameters of Model/MuxBroker.v that used to be written by hand)
+	{
+		selectDefaultCloses := func(fd *ast.FuncDecl) bool {
+			closes := false
+			if fd == nil {
+				return false
+			}
+			ast.Inspect(fd, func(n ast.Node) bool {
+				ss, ok := n.(*ast.SelectStmt)
+				if !ok {
+					return true
+				}
+				for _, c := range ss.Body.List {
+					cc := c.(*ast.CommClause)
+					if cc.Comm == nil {
+						for _, st := range cc.Body {
+							ast.Inspect(st, func(m ast.Node) bool {
+								if ce, ok := m.(*ast.CallExpr); ok && strings.HasSuffix(exprString(ce.Fun), ".Close") {
+									closes = true
+								}
+								return true
+							})
+						}
+					}
+				}
+				return true
+			})
+			return closes
+		}
+		// MuxBroker.Dial: a binary.Read (the ack) follows the binary.Write of the id
+		waitsAck := false
+		if d := findFunc(muxb, "MuxBroker", "Dial"); d != nil {
+			pw := posOfCall(d, func(s string) bool { return s == "binary.Write" })
+			pr := posOfCall(d, func(s string) bool { return s == "binary.Read" })
+			waitsAck = pw != token.NoPos && pr != token.NoPos && pw < pr
+		} else {
+			fail("MuxBroker.Dial not found")
+		}
+		def("mux_dial_waits_ack", "bool", coqBool(waitsAck), "mux_broker.go Dial: reads the ack after writing the id")
+		// MuxBroker.Accept: the timer branch of the select deletes the pending entry
+		timeoutDeletes := false
+		if a := findFunc(muxb, "MuxBroker", "Accept"); a != nil {
+			ast.Inspect(a, func(n ast.Node) bool {
+				cc, ok := n.(*ast.CommClause)
+				if !ok || cc.Comm == nil {
+					return true
+				}
+				if es, ok := cc.Comm.(*ast.ExprStmt); ok && strings.HasPrefix(exprString(es.X), "<-time.After(") {
+					for _, st := range cc.Body {
+						if x, ok := st.(*ast.ExprStmt); ok && strings.HasPrefix(exprString(x.X), "delete(m.streams,") {
+							timeoutDeletes = true
+						}
+					}
+				}
+				return true
+			})
+		} else {
+			fail("MuxBroker.Accept not found")
+		}
+		def("mux_accept_timeout_deletes", "bool", coqBool(timeoutDeletes), "mux_broker.go Accept: the timeout branch deletes the pending entry")
+		// timeoutWait: on expiry takes a parked connection out of the channel and closes it
+		expiryDrains := false
+		if tw := findFunc(muxb, "MuxBroker", "timeoutWait"); tw != nil {
+			ast.Inspect(tw, func(n ast.Node) bool {
+				cc, ok := n.(*ast.CommClause)
+				if !ok || cc.Comm == nil {
+					return true
+				}
+				if as, ok := cc.Comm.(*ast.AssignStmt); ok && len(as.Rhs) == 1 && exprString(as.Rhs[0]) == "<-p.ch" {
+					for _, st := range cc.Body {
+						if x, ok := st.(*ast.ExprStmt); ok && strings.HasSuffix(exprString(x.X), ".Close()") {
+							expiryDrains = true
+						}
+					}
+				}
+				return true
+			})
+		} else {
+			fail("MuxBroker.timeoutWait not found")
+		}
+		def("mux_expiry_drains", "bool", coqBool(expiryDrains), "mux_broker.go timeoutWait: on expiry a parked connection is taken out and closed")
+		def("grpc_run_closes_dropped", "bool", coqBool(selectDefaultCloses(findFunc(grpcb, "GRPCBroker", "Run"))), "grpc_broker.go Run: the default branch of the park select closes something (it does not: a dropped message is just dropped)")
+		// GRPCBroker.Accept (no multiplexing): sends the connection info and returns; there is no wait for an acknowledgement
+		acceptWaits := false
+		if a := findFunc(grpcb, "GRPCBroker", "Accept"); a != nil {
+			ps := posOfCall(a, func(s string) bool { return s == "b.streamer.Send" })
+			if ps == token.NoPos {
+				fail("GRPCBroker.Accept: b.streamer.Send not found")
+			}
+			ast.Inspect(a, func(n ast.Node) bool {
+				switch x := n.(type) {
+				case *ast.SelectStmt:
+					if x.Pos() > ps {
+						acceptWaits = true
+					}
+				case *ast.UnaryExpr:
+					if x.Op == token.ARROW && x.Pos() > ps {
+						acceptWaits = true
+					}
+				}
+				return true
+			})
+		}
+		def("grpc_accept_waits_ack", "bool", coqBool(acceptWaits), "grpc_broker.go Accept (no multiplexing): something is awaited after the connection info was sent")
+	}
+
+	// ---- yamux defaults (the module the working tree's go.mod resolves to): keep-alive interval and write timeout bound a stalled net/rpc request
+	{
+		dir := yamuxDir(*repo)
+		ya := (*ast.File)(nil)
+		if dir != "" {
+			if f, err := parser.ParseFile(fset, filepath.Join(dir, "mux.go"), nil, 0); err == nil {
+				ya = f
+			}
+		}
+		ka, wt := int64(-1), int64(-1)
+		if fd := findFunc(ya, "", "DefaultConfig"); fd != nil {
+			ast.Inspect(fd, func(n ast.Node) bool {
+				kv, ok := n.(*ast.KeyValueExpr)
+				if !ok {
+					return true
+				}
+				secs := func(e ast.Expr) int64 {
+					be, ok := e.(*ast.BinaryExpr)
+					if !ok || exprString(be.Y) != "time.Second" {
+						return -1
+					}
+					v, ok := evalInt(be.X)
+					if !ok {
+						return -1
+					}
+					return v
+				}
+				switch exprString(kv.Key) {
+				case "KeepAliveInterval":
+					ka = secs(kv.Value)
+				case "ConnectionWriteTimeout":
+					wt = secs(kv.Value)
+				}
+				return true
+			})
+		}
+		if ka < 0 || wt < 0 {
+			fail("yamux DefaultConfig: KeepAliveInterval / ConnectionWriteTimeout not found (module dir %q)", dir)
+		}
+		def("yamux_keepalive_bound", "Z", fmt.Sprintf("(%d)%%Z", ka+wt), "yamux DefaultConfig: KeepAliveInterval + ConnectionWriteTimeout (seconds)")
+	}
+
 	// ---- resource release wiring (C18)
 	{
 		callsIn := func(fn ast.Node, name string, deferredOnly bool) bool {
@@ -1118,4 +1266,34 @@ func rpcDoneGuarded(fd *ast.FuncDecl) bool {
 		}
 	}
 	return ok
+}
+
+// yamuxDir: where the yamux version required by the working tree's go.mod lives in the module cache.
+func yamuxDir(repo string) string {
+	b, err := os.ReadFile(filepath.Join(repo, "go.mod"))
+	if err != nil {
+		return ""
+	}
+	ver := ""
+	for _, ln := range strings.Split(string(b), "\n") {
+		f := strings.Fields(ln)
+		for i, w := range f {
+			if w == "github.com/hashicorp/yamux" && i+1 < len(f) {
+				ver = f[i+1]
+			}
+		}
+	}
+	if ver == "" {
+		return ""
+	}
+	cache := os.Getenv("GOMODCACHE")
+	if cache == "" {
+		gp := os.Getenv("GOPATH")
+		if gp == "" {
+			home, _ := os.UserHomeDir()
+			gp = filepath.Join(home, "go")
+		}
+		cache = filepath.Join(gp, "pkg", "mod")
+	}
+	return filepath.Join(cache, "github.com", "hashicorp", "yamux@"+ver)
 }
